@@ -332,14 +332,14 @@ func (rr *regenRunner) eval(rc *regenCase, id string, chk *Checker, offsetsPer i
 		}
 		compress(r2.Events)
 		rid := fmt.Sprintf("%s#%d", id, vi)
-		res.lines = append(res.lines, marshal(map[string]interface{}{"ev": "RunStart", "id": rid, "ident": false, "calls": []CallSpec{}, "assertExit": false, "autoname": false, "dedup": false}))
+		res.lines = append(res.lines, runStartLine(&Scenario{ID: rid}))
 		for _, e := range r2.Events {
 			res.lines = append(res.lines, marshal(e))
 		}
 		res.lines = append(res.lines, marshal(map[string]interface{}{"ev": "RegenObs", "exitR": r2.Exit, "exitS": rs.Exit, "existsR": existsR, "existsS": existsS,
 			"shaR": sha(got), "shaS": sha(scratch), "typechecksR": tc, "scratchTypechecks": scratchTC, "callsRemain": len(rc.V2.Present) > 0, "offset": v.off}))
 		panicked := strings.Contains(r2.Stderr, "panic:") || strings.Contains(r2.Stderr, "goroutine ")
-		res.lines = append(res.lines, marshal(map[string]interface{}{"ev": "RunEnd", "id": rid, "exit": r2.Exit, "timedout": r2.TimedOut, "panicked": panicked,
+		res.lines = append(res.lines, marshal(map[string]interface{}{"ev": "RunEnd", "id": rid, "exit": r2.Exit, "timedout": r2.TimedOut, "panicked": panicked, "diagnostic": strings.TrimSpace(r2.Stderr) != "",
 			"changedFiles": []string{}, "post": PostObs{Errors: []string{}, Sites: []SiteObs{}, Funcs: []FuncObs{}, Reserved: []string{}, Unresolved: []string{}}}))
 		if r2.Exit != 0 || existsR != existsS || string(got) != string(scratch) {
 			res.same = false
